@@ -34,6 +34,10 @@ pub enum ServerId {
     /// certificate from the trusted CA, handed to the server as a PEM "full chain" file that also
     /// carries the *other* CA's certificate: what the server presents must not widen whom it trusts
     TrustedFullChain,
+    /// identity issued by the *other* CA, handed over as a full-chain file (leaf + that CA), while
+    /// client certificates are verified against the trusted CA; the client under test trusts the
+    /// other CA here, so that only the server's verification of the client decides
+    OtherCaFullChain,
 }
 
 #[derive(Clone, Debug, Serialize, Deserialize)]
@@ -47,12 +51,16 @@ pub struct TlsScript {
     /// the trusted certificate set was renewed in place (generator run again over an older set)
     #[serde(default)]
     pub renewed_in_place: bool,
+    /// the renewal happens after a first client was already built from the same file paths in
+    /// this process (and the server is restarted with the new set)
+    #[serde(default)]
+    pub renewed_after_first_client: bool,
 }
 
 pub fn pairings() -> Vec<(ClientId, ServerId)> {
     let mut v = vec![];
     for c in [ClientId::Trusted, ClientId::OtherCa, ClientId::SelfSigned, ClientId::None] {
-        for s in [ServerId::Trusted, ServerId::OtherCa, ServerId::TrustedFullChain] {
+        for s in [ServerId::Trusted, ServerId::OtherCa, ServerId::TrustedFullChain, ServerId::OtherCaFullChain] {
             v.push((c, s));
         }
     }
@@ -74,6 +82,20 @@ pub struct TlsReport {
 async fn scenario(world: Rc<World>, sc: TlsScript) -> AResult<TlsReport> {
     let mut rep = TlsReport::default();
     let a = world.certs.clone();
+    if sc.renewed_in_place && sc.renewed_after_first_client {
+        // the old set in use first: a server on it and a client built from the same paths
+        world.start_server_with(&a, ServerOpts::default())?;
+        let g = world.new_group();
+        let w = world.clone();
+        let a2 = a.clone();
+        let first = ACTOR.scope(g, async move { w.client_with(&a2, BackoffStrategy::constant().with_max_attempts(0), 5_000).await }).await;
+        if first.is_err() {
+            rep.notes.push("the client built before the renewal could not connect".into());
+        }
+        drop(first);
+        world.stop_server();
+        tokio::time::sleep(Duration::from_millis(200)).await;
+    }
     if sc.renewed_in_place {
         regenerate_certs_in_place(&a)?;
     }
@@ -90,9 +112,17 @@ async fn scenario(world: Rc<World>, sc: TlsScript) -> AResult<TlsReport> {
             std::fs::copy(a.server.join("ca.der"), mixed.join("ca.der"))?;
             CertDir { client: a.client.clone(), server: mixed }
         }
-        ServerId::TrustedFullChain => a.clone(),
+        ServerId::TrustedFullChain | ServerId::OtherCaFullChain => a.clone(),
     };
-    if sc.server == ServerId::TrustedFullChain {
+    if sc.server == ServerId::OtherCaFullChain {
+        let chain = scratch_root().join("fullchain-other.pem");
+        std::fs::create_dir_all(scratch_root())?;
+        std::fs::write(&chain, pem_chain(&[read_der(&b.server.join("localhost.der"))?, read_der(&b.server.join("ca.der"))?]))?;
+        if let Err(e) = world.start_server_files(&a.server.join("ca.der"), &chain, &b.server.join("localhost.key.der"), ServerOpts::default()) {
+            rep.server_start_err = Some(format!("{e:#}"));
+            return Ok(rep);
+        }
+    } else if sc.server == ServerId::TrustedFullChain {
         let chain = scratch_root().join("fullchain.pem");
         std::fs::create_dir_all(scratch_root())?;
         std::fs::write(&chain, pem_chain(&[read_der(&a.server.join("localhost.der"))?, read_der(&b.server.join("ca.der"))?]))?;
@@ -108,7 +138,7 @@ async fn scenario(world: Rc<World>, sc: TlsScript) -> AResult<TlsReport> {
     let backoff = BackoffStrategy::constant().with_max_attempts(0);
     // a trusted subscriber watches the topic (only possible when the server itself is trusted)
     let mut watcher = None;
-    if sc.server != ServerId::OtherCa {
+    if sc.server == ServerId::Trusted || sc.server == ServerId::TrustedFullChain {
         let g = world.new_group();
         let w = world.clone();
         let bo = backoff.clone();
@@ -128,7 +158,8 @@ async fn scenario(world: Rc<World>, sc: TlsScript) -> AResult<TlsReport> {
     // identity files of the client under test (it always trusts CA A)
     let client_dir = scratch_root().join("client-under-test");
     std::fs::create_dir_all(&client_dir)?;
-    std::fs::copy(a.client.join("ca.der"), client_dir.join("ca.der"))?;
+    let trust = if sc.server == ServerId::OtherCaFullChain { &b } else { &a };
+    std::fs::copy(trust.client.join("ca.der"), client_dir.join("ca.der"))?;
     let identity: Option<(Vec<u8>, Vec<u8>)> = match sc.client {
         ClientId::Trusted => Some((read_der(&a.client.join("localhost.der"))?, read_der(&a.client.join("localhost.key.der"))?)),
         ClientId::OtherCa => Some((read_der(&b.client.join("localhost.der"))?, read_der(&b.client.join("localhost.key.der"))?)),
@@ -142,7 +173,7 @@ async fn scenario(world: Rc<World>, sc: TlsScript) -> AResult<TlsReport> {
     let use_raw = sc.raw_client || identity.is_none();
     if use_raw {
         let mut roots = RootCertStore::empty();
-        roots.add(&Certificate(read_der(&a.client.join("ca.der"))?))?;
+        roots.add(&Certificate(read_der(&trust.client.join("ca.der"))?))?;
         let id = identity.map(|(c, k)| (vec![Certificate(c)], PrivateKey(k)));
         match world.raw_connect(g, id, roots, None).await {
             Err(e) => rep.connect = Some(Err(format!("{e:#}"))),
@@ -224,6 +255,9 @@ pub fn execute(prop: &str, sc: &TlsScript, opts: &ExecOpts) -> Outcome {
                 }
                 Some(Ok(rep)) => {
                     let should_work = sc.client == ClientId::Trusted && sc.server != ServerId::OtherCa;
+                    if sc.renewed_after_first_client && sc.renewed_in_place {
+                        out.fault("certificate_set_renewed_after_a_client_was_built");
+                    }
                     if sc.renewed_in_place {
                         out.fault("certificate_set_renewed_in_place");
                     }
@@ -294,7 +328,7 @@ impl Family for TlsFamily {
         let ps = pairings();
         let (client, server) = ps[(index % ps.len() as u64) as usize];
         let net = NetCfg { seed: rng.next(), loss_ppm: *rng.pick(&[0u32, 0, 10_000, 30_000]), dup_ppm: *rng.pick(&[0u32, 20_000]), min_delay_ms: rng.range(1, 30) as u32, jitter_ms: *rng.pick(&[0u32, 10, 80]) };
-        serde_json::to_value(TlsScript { net, rt_seed: rng.next(), client, server, raw_client: rng.chance(1, 2), renewed_in_place: rng.chance(1, 3) }).unwrap()
+        serde_json::to_value(TlsScript { net, rt_seed: rng.next(), client, server, raw_client: rng.chance(1, 2), renewed_in_place: rng.chance(1, 3), renewed_after_first_client: rng.chance(1, 2) }).unwrap()
     }
     fn execute(&self, property: &str, body: &Value, opts: &ExecOpts) -> Outcome {
         match serde_json::from_value::<TlsScript>(body.clone()) {
@@ -328,6 +362,6 @@ impl Family for TlsFamily {
         120_000
     }
     fn exhaustive_note(&self, _p: &str, tier: Tier) -> Option<String> {
-        Some(format!("identity matrix: 12 pairings = client {{trusted CA, other CA, self-signed, none}} x server {{trusted CA, other CA, trusted CA presenting a full-chain file that also carries the other CA}}; every pairing run under {} seeded network schedules, with the refused peer played by the library client and by a raw quinn client, a third of them with the certificate set renewed in place", if tier == Tier::Quick { 20 } else { 1600 }))
+        Some(format!("identity matrix: 16 pairings = client {{trusted CA, other CA, self-signed, none}} x server {{trusted CA, other CA, trusted CA presenting a full-chain file that also carries the other CA, other CA presenting its own full chain}}; every pairing run under {} seeded network schedules, with the refused peer played by the library client and by a raw quinn client, a third of them with the certificate set renewed in place", if tier == Tier::Quick { 20 } else { 1600 }))
     }
 }
